@@ -108,6 +108,23 @@ def uses_of_param(f, param, sl, params):
     return out, aliases
 
 
+def _null_checked_on_every_path(f, prm, site, sl):
+    """The null test may be folded into a boolean (`let has = !p.is_null() && len > 0; if has { .. *p .. }`): enumerate the paths
+    from the entry to the use with `p.is_null()` as an atom; on every one of them the atom must be false."""
+    from sa import boolpaths
+    A = ("call", "null")
+
+    def call_atom(t, val):
+        if callee_of(t).endswith("::is_null") and t["args"] and prm in (sl.args(t["args"][0]) | {op_local(t["args"][0])}):
+            return ("atom", A, False)
+        return None
+    ps = boolpaths.paths(f, 0, lambda bb: "use" if bb == site.b else None, lambda pl: None, call_atom=call_atom, max_paths=20000)
+    if len(ps) >= 20000:
+        return False
+    mine = [p_ for p_ in ps if p_.end == ("use", site.b)]
+    return bool(mine) and all(p_.cons.get(A) is False for p_ in mine)
+
+
 def r26a(ctx, P):
     rid = "R26.a"
     ctx.rule(rid, "GUARD: in every extern \"C\" function each dereferencing use of a raw-pointer parameter is dominated by the non-null "
@@ -126,6 +143,8 @@ def r26a(ctx, P):
             bad = []
             for (site, how) in uses:
                 ok = any(f.dominates_block(nn, site.b) and site.b not in f.reachable_from(nl, stop=[nn]) for (_b, nn, nl) in guards)
+                if not ok:
+                    ok = _null_checked_on_every_path(f, prm, site, sl)
                 if not ok:
                     bad.append((site, how))
             name = f.locals[prm].get("name") or ("arg%d" % prm)
